@@ -142,17 +142,23 @@ def enc_input(num, parser, text):
 
 def tree_sexp(num, n):
     """Canonical s-expression of an implementation parse tree (LR build_tree
-    nodes, GLR Tree/LazyTree proxies)."""
-    stack_out = []
-
-    def go(n):
-        if n.is_term():
-            return "(L %d %s %s)" % (num.term(n.symbol), n.start_position, n.end_position)
-        kids = [go(c) for c in n]
-        return "(N %d %s %s%s)" % (n.production.prod_id, n.start_position, n.end_position,
-                                   "".join(" " + k for k in kids))
-
-    return go(n)
+    nodes, GLR Tree/LazyTree proxies). Iterative: trees can be thousands of levels deep."""
+    out = []
+    # stack of (node, state): state 0 = open, 1 = close
+    stack = [(n, 0)]
+    while stack:
+        x, st = stack.pop()
+        if st == 1:
+            out.append(")")
+            continue
+        if x.is_term():
+            out.append(" (L %d %s %s)" % (num.term(x.symbol), x.start_position, x.end_position))
+            continue
+        out.append(" (N %d %s %s" % (x.production.prod_id, x.start_position, x.end_position))
+        stack.append((x, 1))
+        for c in reversed(list(x)):
+            stack.append((c, 0))
+    return "".join(out)[1:]
 
 
 def enc_tree(num, n):
